@@ -75,6 +75,36 @@ class Synthetic(io.BufferedIOBase):
         return out
 
 
+class HandMadeZstd:
+    """a minimal ZStandard encoder (RLE blocks for runs of one byte, raw blocks otherwise) whose frame header DECLARES a window of
+    2^window_log bytes: the decoder's history buffer is sized from these two bytes of the archive"""
+    window_log = 30
+
+    def __init__(self, level=None):
+        self.started = False
+
+    def _block(self, kind, payload, size, last=0):
+        hdr = last | (kind << 1) | (size << 3)
+        return hdr.to_bytes(3, "little") + payload
+
+    def compress(self, data):
+        out = b""
+        if not self.started:
+            self.started = True
+            out += b"\x28\xb5\x2f\xfd" + bytes([0x00, (self.window_log - 10) << 3])      # no checksum, no content size, window descriptor
+        view = memoryview(data)
+        for off in range(0, len(view), 1 << 17):
+            piece = bytes(view[off:off + (1 << 17)])
+            if piece.count(piece[:1]) == len(piece):
+                out += self._block(1, piece[:1], len(piece))
+            else:
+                out += self._block(0, piece, len(piece))
+        return out
+
+    def flush(self):
+        return (b"" if self.started else self.compress(b"")) + self._block(0, b"", 0, last=1)
+
+
 def rss_kb():
     return resource.getrusage(resource.RUSAGE_SELF).ru_maxrss
 
@@ -245,6 +275,9 @@ def main():
     kw = {}
     if case.get("blocksize"):
         kw["blocksize"] = case["blocksize"]
+    if case.get("zstd_window"):
+        HandMadeZstd.window_log = int(case["zstd_window"])
+        C.algorithm_class_map[P.FILTER_ZSTD] = (HandMadeZstd, C.algorithm_class_map[P.FILTER_ZSTD][1])
     try:
         if case["phase"] == "write":
             with py7zr.SevenZipFile(arc, "w", filters=case["filters"], password=case.get("password"), **kw) as z:
